@@ -3,30 +3,63 @@ From ZV Require Import Prelude GoSem Sync.
 Open Scope Z_scope.
 
 Definition smom_t := (Z * Z * Z)%type.                     (* hash, previous hash, height *)
-Definition dmom_t := (Z * Z * Z * bool * bool)%type.       (* ..., verifies in order (generator), carries account blocks *)
+Definition pblk_t := (Z * Z * Z)%type.                     (* account block: identifier, account, account height *)
+Definition blk_t := (Z * Z * Z * bool)%type.               (* ..., verifies at its place in order (generator) *)
+Definition to_blk (t : pblk_t) : blk := let '(i, a, h) := t in mkB i a h.
+Definition blk_of (t : blk_t) : blk := let '(i, a, h, _) := t in mkB i a h.
+(* ..., the momentum itself verifies once its blocks are accepted (generator), its account blocks in order *)
+Definition dmom_t := (Z * Z * Z * bool * list blk_t)%type.
 Definition to_smom (t : smom_t) : smom := let '(h, p, n) := t in mkS h p n.
-Definition strip (t : dmom_t) : smom := let '(h, p, n, _, _) := t in mkS h p n.
+Definition strip (t : dmom_t) : dmom := let '(h, p, n, _, bs) := t in mkD (mkS h p n) (map blk_of bs).
+Definition blocks_of (t : dmom_t) : list blk_t := let '(_, _, _, _, bs) := t in bs.
 
-Fixpoint flags_of (ds : list dmom_t) (d : smom) : bool * bool :=
+Fixpoint mflag_of (ds : list dmom_t) (d : smom) : bool :=
   match ds with
-  | [] => (false, false)
-  | t :: r => if smom_eqb (strip t) d then (let '(_, _, _, ok, hb) := t in (ok, hb)) else flags_of r d
+  | [] => false
+  | t :: r => if smom_eqb (d_mom (strip t)) d then (let '(_, _, _, ok, _) := t in ok) else mflag_of r d
   end.
-(* the verification oracle as observed: the generator's flag; a momentum that is already on the chain and carries
-   account blocks fails (its blocks are confirmed, ApplyBlock refuses them), one without blocks verifies again *)
-Definition tie_valid (ds : list dmom_t) (chain : list smom) (d : smom) : bool :=
-  let '(ok, hb) := flags_of ds d in ok && negb (hb && existsb (smom_eqb d) chain).
+Fixpoint bflag_in (bs : list blk_t) (b : blk) : option bool :=
+  match bs with
+  | [] => None
+  | t :: r => if blk_eqb (blk_of t) b then Some (snd t) else bflag_in r b
+  end.
+Fixpoint bflag_of (ds : list dmom_t) (b : blk) : bool :=
+  match ds with
+  | [] => false
+  | t :: r => match bflag_in (blocks_of t) b with Some ok => ok | None => bflag_of r b end
+  end.
+(* the block is confirmed by a delivered momentum that is on the chain (ApplyBlock refuses it then) *)
+Definition committed (ds : list dmom_t) (chain : list smom) (b : blk) : bool :=
+  existsb (fun t => existsb (fun x => blk_eqb (blk_of x) b) (blocks_of t) && existsb (smom_eqb (d_mom (strip t))) chain) ds.
 
-Definition ic_in := (list smom_t * list dmom_t)%type.
-Definition ic_out := (Z * Z * Z * Z)%type.                 (* class, index, frontier hash, frontier height *)
+(* the verification oracles as observed: the generator's flags *)
+Definition tie_bvalid (ds : list dmom_t) (chain : list smom) (_ : list blk) (b : blk) : bool :=
+  bflag_of ds b && negb (committed ds chain b).
+Definition tie_mvalid (ds : list dmom_t) (_ : list smom) (d : dmom) : bool := mflag_of ds (d_mom d).
+
+Fixpoint prefixb (a b : list smom) : bool :=
+  match a, b with
+  | [], _ => true
+  | x :: a', y :: b' => smom_eqb x y && prefixb a' b'
+  | _ :: _, [] => false
+  end.
+Definition subsetb (a b : list Z) : bool := forallb (fun x => existsb (Z.eqb x) b) a.
+
+Definition ic_in := (list smom_t * list pblk_t * list dmom_t)%type.   (* own chain (suffix), pooled blocks, batch *)
+(* class, index, frontier hash, frontier height; when own momentums were abandoned: the blocks that were in the
+   pool before the call and still are after it (the model: none survives the rollback itself, DeleteMomentum) *)
+Definition ic_out := (Z * Z * Z * Z * list Z)%type.
 Definition insert_chain_run (i : ic_in) : ic_out :=
-  let '(local, ds) := i in
-  let '(r, c') := insert_chain (tie_valid ds) true (map to_smom local) (map strip ds) in
+  let '(local, pool, ds) := i in
+  let c := map to_smom local in
+  let pool := map to_blk pool in
+  let '(r, (c', p')) := insert_chain (tie_bvalid ds) (tie_mvalid ds) true true c pool (map strip ds) in
   let '(cls, idx) := match r with ICOk => (0, 0) | ICErr k _ => (1, k) | ICPanic => (3, 0) end in
+  let surv := if prefixb c c' then [] else map b_id (filter (fun b => pooled b pool) p') in
   match frontier c' with
-  | Some f => (cls, idx, s_hash f, s_height f)
-  | None => (cls, idx, 0, 0)
+  | Some f => (cls, idx, s_hash f, s_height f, surv)
+  | None => (cls, idx, 0, 0, surv)
   end.
 Definition insert_chain_eqb (a b : ic_out) : bool :=
-  let '(a1, a2, a3, a4) := a in let '(b1, b2, b3, b4) := b in
-  (a1 =? b1) && (a2 =? b2) && (a3 =? b3) && (a4 =? b4).
+  let '(a1, a2, a3, a4, a5) := a in let '(b1, b2, b3, b4, b5) := b in
+  (a1 =? b1) && (a2 =? b2) && (a3 =? b3) && (a4 =? b4) && subsetb a5 b5 && subsetb b5 a5.
